@@ -255,6 +255,7 @@ type GbnScenario struct {
 	Latency    time.Duration    `json:"latency"`
 	SendGap    [2]time.Duration `json:"send_gap"`
 	Static     time.Duration    `json:"static_timeout"` // 0 = adaptive
+	HsTimeout  time.Duration    `json:"handshake_timeout,omitempty"`
 	Ping, Pong time.Duration    `json:"-"`
 	PingNs     int64            `json:"ping"`
 	PongNs     int64            `json:"pong"`
@@ -325,6 +326,9 @@ func (sc *GbnScenario) opts() []gbn.Option {
 	var to []gbn.TimeoutOptions
 	if sc.Static > 0 {
 		to = append(to, gbn.WithStaticResendTimeout(sc.Static))
+	}
+	if sc.HsTimeout > 0 {
+		to = append(to, gbn.WithHandshakeTimeout(sc.HsTimeout))
 	}
 	if sc.PingNs > 0 {
 		to = append(to, gbn.WithKeepalivePing(time.Duration(sc.PingNs), time.Duration(sc.PongNs)))
